@@ -104,12 +104,13 @@ func FocusFor(prop string, tier string) Focus {
 	switch prop {
 	case "C01", "C02":
 		mul(2, KRespond, KWithdraw, KCall)
-		if prop == "C01" {
-			f.MultiPct = 20
-		}
+		f.MultiPct = 20
 	case "C03", "C14":
 		mul(3, KBind, KUpdateBind, KDisable, KEnable, KRefundDep)
 		f.ModSvcPct = 5
+		if prop == "C03" {
+			f.MultiPct = 15
+		}
 		if prop == "C14" {
 			// "under the parameters in force": a governance change may leave existing bindings below the
 			// new minimum; the oracle tolerates exactly those while nothing touches them
@@ -118,6 +119,7 @@ func FocusFor(prop string, tier string) Focus {
 	case "C04":
 		mul(2, KCall, KRespond)
 	case "C05":
+		f.MultiPct = 15
 		f.WrongSign = 45
 		f.ModSvcPct = 30
 		mul(2, KModCreate)
@@ -160,6 +162,7 @@ func FocusFor(prop string, tier string) Focus {
 		f.MultiPct = 15
 	case "C19":
 		f.Only20Pct = 60
+		f.MultiPct = 15
 	case "C20":
 		f.MultiPct = 20
 		f.Boundary = 10
